@@ -571,6 +571,7 @@ class System:
                 it.enum_discr.update(getattr(sysm, "extra_discr", {}))
                 it.hooks.update(getattr(sysm, "hooks", {}))
                 it.redirects.update(getattr(sysm, "redirects", {}))
+                it.const_overrides.update(getattr(sysm, "const_overrides", {}))
                 it.system = sysm
                 it.thread = t
                 ctx.thread = t
@@ -658,6 +659,7 @@ class System:
             it.enum_discr.update(getattr(self, "extra_discr", {}))
             it.hooks.update(getattr(self, "hooks", {}))
             it.redirects.update(getattr(self, "redirects", {}))
+            it.const_overrides.update(getattr(self, "const_overrides", {}))
             it.system, it.thread = self, t
             interps.append(it)
 
